@@ -27,7 +27,7 @@ def build(scratch):
     parts.append("#[derive(Clone, Copy, Debug, PartialEq, Eq)]\n" + ex.item(AN, "enum", "IdentifierStatus"))
     parts.append("#[derive(Debug, Clone)]\n" + ex.item(AN, "struct", "SemanticInformation"))
     s, ob, end = ex.impl_range(AN, r"impl SemanticInformation")
-    parts.append("impl SemanticInformation {\n    " + ex.fn(AN, "new", within=(ob, end)) + "\n}")
+    parts.append(ex.impl_block(AN, r"impl SemanticInformation"))
     parts.append("#[derive(Debug, Clone, PartialEq, Eq)]\n" + ex.item(AN, "struct", "ScopeInfo"))
     parts.append(ex.impl_block(AN, r"impl ScopeInfo"))
     parts.append("#[derive(Debug, PartialEq, Clone)]\n" + ex.item(AN, "enum", "CallKind"))
@@ -46,8 +46,8 @@ def build(scratch):
         raise AnchorLost("impl<'a> AnalysisPass<'a> not found")
     wt = ex.fn(AN, "visit_with_tail_call_eligibility")
     s, ob, end = ex.impl_range(AN, r"impl<'a> VisitorMutUnitRef<'a> for AnalysisPass<'a>")
-    meths = [wt] + [ex.fn(AN, n, within=(ob, end)) for n in ["visit_define", "visit_if", "visit_list", "visit_begin", "visit_let", "visit_set"]]
-    for it in ex.items[-7:]:
+    meths = [wt] + [ex.fn(AN, n, within=(ob, end)) for n in ["visit_define", "visit_if", "visit_list", "visit_begin", "visit_let", "visit_set", "visit_atom"]]
+    for it in ex.items[-8:]:
         it["edits"] = ["D1", "D3"]
     parts.append("impl<'a> AnalysisPass<'a> {\n    " + "\n\n    ".join(meths) + "\n}")
     an_text = "\n\n".join(parts) + "\n"
@@ -59,6 +59,8 @@ def build(scratch):
     s, ob, end = ex.impl_range(AST, r"impl Let \{")
     acc += "impl Let {\n    " + "\n\n    ".join(ex.fn(AST, n, within=(ob, end)) for n in ["local_bindings", "expression_arguments"]) + "\n}\n\n"
     acc += ex.impl_block(AST, r"impl Deref for List") + "\n"
+    s, ob, end = ex.impl_range(AST, r"impl Atom \{")
+    acc += "impl Atom {\n    " + ex.fn(AST, "ident", within=(ob, end)) + "\n}\n\n"
     crate = os.path.join(scratch, "anlx")
     os.makedirs(os.path.join(crate, "src"))
     shutil.copy(os.path.join(REPO, "Cargo.lock"), os.path.join(crate, "Cargo.lock"))
@@ -69,7 +71,7 @@ def build(scratch):
     write(os.path.join(crate, "src/x_analysis.rs"), "#![allow(dead_code, unused_imports, unused_variables, unused_mut, unused_assignments)]\nuse crate::prelude::*;\nuse crate::prelude::hash_map;\n\n" + an_text
           + "\n#[cfg(kani)]\n#[path = \"harness.rs\"]\nmod harness;\n")
     write(os.path.join(crate, "src/harness.rs"), harness)
-    write(os.path.join(crate, "src/lib.rs"), "#![allow(dead_code, unused_imports)]\npub mod prelude;\npub mod x_ast;\npub mod x_analysis;\npub mod parser {\n    pub mod ast {\n        pub use crate::prelude::{Atom, Begin, Define, ExprKind, If, LambdaFunction, Let, List, Quote, Set};\n    }\n}\n")
+    write(os.path.join(crate, "src/lib.rs"), "#![allow(dead_code, unused_imports)]\npub mod prelude;\npub mod x_ast;\npub mod x_analysis;\npub mod parser {\n    pub mod ast {\n        pub use crate::prelude::{Atom, Begin, Define, ExprKind, If, LambdaFunction, Let, List, Quote, Set};\n    }\n}\npub mod steel_vm {\n    pub mod primitives {\n        pub use crate::prelude::PRELUDE_INTERNED_STRINGS;\n    }\n}\n")
     meta = {"unit": NAME, "engine": "E2: verbatim item extraction into a mini crate + Kani", "items": ex.items,
             "prelude": "units/anl/prelude.rs", "prelude_sha256": sha256(prelude), "harness_sha256": sha256(harness),
             "extractor_edits": "D1 (derive lines restated); D3 (trait-impl methods re-wrapped in an inherent impl; `self.visit` is the prelude's ghost callee carrying the visitor's contract; `visit_define_without_body` is an abstracted callee)",
@@ -98,24 +100,33 @@ OBS = {
         contract="the recorded call kind: TailCall only if the call is in tail position inside a function (scope depth > 1), SelfTailCall(d) only if additionally the operator refers to the function being defined and d is the current nesting depth, otherwise Normal - a call that is not in tail position is NEVER marked as a tail call"),
     "visit_let_contract": dict(kind="bounded", bound=B, functions=["AnalysisPass::visit_let"],
         contract=TAIL + "binding expressions are never in tail position and are analysed outside the defining context, binding i at stack offset entry+i; the body is in tail position iff the let is, inside the restored defining context; variable i is bound to stack slot entry+i while the body is analysed; tail flag and stack offset are restored and the bindings are out of scope afterwards"),
+    "visit_atom_local_contract": dict(kind="bounded", bound="one local binding (symbolic slot, usage count, captured / mutated flags), scope depth 2-3, symbolic traversal state", functions=["AnalysisPass::visit_atom", "Analysis::insert", "SemanticInformation::*", "Atom::ident"],
+        contract="a read of a variable bound in the CURRENT function: the occurrence is recorded as Local (HeapAllocated iff the binding is captured and mutated) referring to that binding and its stack slot; the binding's use count goes up by one and THIS occurrence becomes its last use; the traversal state is untouched"),
+    "visit_atom_captured_contract": dict(kind="bounded", bound="one binding in an enclosing function + its capture record (from the stack or from the enclosing closure, mutated or not, symbolic offsets)", functions=["AnalysisPass::visit_atom"],
+        contract="a read of a variable captured from an enclosing function: recorded as Captured (HeapAllocated iff mutated) referring to the captured binding with its capture offsets; the capture record AND the binding that is in scope are both marked captured with THIS occurrence as last use - whether the value comes from the stack or from the enclosing closure's captures (otherwise an earlier read is compiled as a move and the closure captures #<void>)"),
+    "visit_atom_global_free_contract": dict(kind="bounded", bound="one global binding / no binding; builtin name or not", functions=["AnalysisPass::visit_atom"],
+        contract="a read of a global is recorded as Global referring to the global's id (use counts of the binding and of its definition go up); an unbound name is recorded as Free, or as a builtin Global if the prelude exports it; a non-identifier atom records nothing; the traversal state is untouched"),
     "visit_set_contract": dict(kind="bounded", bound="one assignment, symbolic entry state", functions=["AnalysisPass::visit_set"],
         contract="the assigned expression is never in tail position; the traversal state is restored (the defining context may only be cleared)"),
 }
 PROPS = {
     "C09": list(OBS),
     "C01": list(OBS),
+    "C03": [n for n in OBS if n.startswith("visit_atom")],
 }
 
 
 def run_for(scratch, tier, prop):
-    return run_unit(scratch, tier)
+    return run_unit(scratch, tier, prop)
 
 
-def run_unit(scratch, tier):
+def run_unit(scratch, tier, prop=None):
     crate, meta = build(scratch)
     p = os.path.join(crate, "src/harness.rs")
     write(p, read(p) + "\n#[kani::proof]\n#[kani::unwind(6)]\nfn canary_must_fail() {\n    let e = atom(1, 1);\n    let mut a = Analysis::with_depth(2);\n    let mut p = AnalysisPass::ghost_new(&mut a);\n    p.tail_call_eligible = true;\n    p.visit_with_tail_call_eligibility(&e, false);\n    assert!(!p.tail_call_eligible, \"canary: must be reported as failing\");\n}\n")
-    specs = [dict(name=n, kind=o["kind"], contract=o["contract"], functions=o["functions"], bound=o.get("bound")) for n, o in OBS.items()]
+    # C03 (last-use soundness) is served by the variable-read obligations only
+    specs = [dict(name=n, kind=o["kind"], contract=o["contract"], functions=o["functions"], bound=o.get("bound")) for n, o in OBS.items()
+             if prop != "C03" or n.startswith("visit_atom")]
     specs.append(dict(name="canary_must_fail", kind="canary", contract="assert that must fail"))
     obs, cmd, out = kani.run_harnesses(crate, specs, NAME, "anl", jobs=8, timeout=3000, harness_timeout="10m",
                                        extra_flags=["--no-assertion-reach-checks"])
